@@ -1,4 +1,4 @@
-import RsMatterVerif.Lemmas.SubsLive
+import RsMatterVerif.Lemmas.SubsRings
 /-!
 # C13 — a subscriber eventually learns every change it subscribed to
 
@@ -16,19 +16,25 @@ Theorems over `Model/Subs.lean` (the repaired `im/subscriptions.rs`).
   `wake_before_max`, `failing_sub_expires_by_max`, `retry_preserves_expiry`,
   `expiry_sweep_removes`, `backoff_capped`.
 * (5) `change_table_capacity`, `change_id_monotone`, `sub_id_fresh`, `table_capacity`.
-* (6) `event_pending_iff`, `events_not_pending_after_keep`.
+* (6) `event_pending_iff`, `events_not_pending_after_keep` (one-value unfoldings; the statements about
+  histories are in the events section).
 * counter-examples for the two defects of the unrepaired code: `purgeOld_breaks_cov`,
   `reportCompleteOld_drops_wrong_sub`.
-* eventuality: `C13_full` (along every fair schedule a subscription that owes a recorded change gets
-  it acknowledged, or ends, or the device restarts) is **proved**: `C13_full_holds`,
-  `C13_delivered_or_ended`; the fairness hypothesis `Subs.Fair` is explicit (one reporter task, the
-  reporter pass with its expiry sweep runs again and again while time advances, every begun priming /
-  report completes with keep / retry / drop, no subscription stays un-primed for ever, no clock
-  overflow) and satisfiable (`fair_example`).  `report_begins`: under `Subs.Idle` an owing subscription
-  of the table is picked up by the reporter (or removed).  `C13_eventual_partial`: one reporting cycle.
+* delivery: **`C13_full`** (bounded form, every history, no fairness, not implied by expiry): any report
+  begun at or after a change for a subscription that has not seen it snapshots a covering watermark,
+  selects the change throughout its flight, ends the debt on `keep`, keeps it on `retry`, and ends `unsent`
+  only if nothing was owed (`UnsentOk` is a hypothesis) — proved: `C13_full_holds`; false for the
+  unrepaired purge: `C13_full_fails_for_purgeOld`. Progress without a starvation assumption:
+  `report_begins_at_call`, `delivered_by_kept_report`. The former eventuality under `Subs.Fair` is
+  `C13_weak` (`C13_weak_holds`, `eventually_ended_or_delivered_weak`) — implied by `Fair` + expiry alone
+  (`fair_schedule_sweeps_every_subscription`); `report_begins_if_passes_end` (under `Subs.Idle`).
+* timing on runs: `min_interval_on_runs`, `liveness_on_runs`, `expiry_on_runs`.
+* events: `watermark_is_last_pushed_number`, `no_event_skipped`, `subscribed_event_in_next_report`.
+* totalisations: `report_assert_cannot_fire`, `add_u32_agrees`, `sub_ids_unique_u32`.
+* one reporting cycle: `C13_eventual_partial`.
 * persisted subscriptions: `persist_mirrors_table`, `restart_resumes`, `restart_resumes_all`,
-  `resumed_reports_everything`; `resumed_never_expires` + `retry_keeps_unprimed`: why the fairness
-  clause `primes` is needed (finding `C13-resumed-never-expires`).
+  `resumed_reports_everything`; `resumed_never_expired_before_fix` + `retry_keeps_unprimed`: why the
+  fairness clause `primes` of `C13_weak` is needed (finding `C13-resumed-never-expires`).
 -/
 namespace C13
 open Subs
@@ -569,29 +575,179 @@ theorem unsent_while_owed_loses_change :
     (∀ c ∈ ((s2.report 40000000 0).1).ctxs, (s2.report 40000000 0).1.shouldReportAttr c 1 2 3 = false) := by
   refine ⟨by decide, by decide, by decide, by decide, by decide⟩
 
-/-! ## Eventuality
+/-! ## Delivery
 
 `stateAt`, `Owes`, `Fair`, the identity invariant `UID` and the tracking argument are in
-`Lemmas/SubsLive.lean`. -/
+`Lemmas/SubsLive.lean`; `BeginsAt`, `NoRestart` and the window lemmas in `Lemmas/SubsDeliver.lean`. -/
 
-/-- **Full statement**: along every fair schedule (see `Subs.Fair` for the five clauses: one reporter
-task; the reporter pass with its expiry sweep runs again and again while time advances; every begun
-priming / report completes with keep, retry or drop; a subscription does not stay un-primed forever;
-the clock does not overflow) without change-id wrap, a subscription that owes a recorded change does
-not owe it forever. -/
+/-- **Full statement (bounded form, no fairness, not implied by expiry).** Along **every** schedule of
+table operations without change-id wrap in which the reporter ends a report `unsent` only when its
+filter selects nothing (`UnsentOk`): let change `(i, p)` be recorded by step `k`, and let **any** report
+begin at a step `j ≥ k` (no restart in between) for a subscription that has not seen the change
+(`c.sub.seenAttr < i`), its context `c` staying alive through step `m`. Then
+1. the watermark the report will commit covers the change (`i ≤ c.nextAttr`);
+2. at **every** instant of the flight the report's filter `should_report_attr` selects every attribute
+   the change touches — whatever else happened in between (other subscribers primed, acknowledged,
+   `purge_reported_changes`, coalescing, promotion to wildcards);
+3. if the context ends at `m` with `keep` (the report was acknowledged), the subscription does not owe
+   the change afterwards;
+4. if it ends with `retry` and the subscription is still alive, it is back in the table with the same
+   watermark and last-success instant — it still owes the change, and the next report that begins for
+   it is covered by this statement again (so the **first kept report begun at or after the change
+   carries it**);
+5. if it ends `unsent`, the change touches no attribute at all (nothing was owed).
+When such a report begins is `owed_report_begins_at_call` (progress). The statement is **false for the
+code before the repair of `purge_reported_changes`**: `C13_full_fails_for_purgeOld`. -/
 def C13_full : Prop :=
+  ∀ (hz n : Nat) (sched : Nat → Op),
+    (∀ k, (stateAt hz n sched k).changed.nextId + 1 < U64) → UnsentOk hz n sched →
+    ∀ (k j m : Nat) (c : Ctx) (i : Nat) (p : Entry), (i, p) ∈ (stateAt hz n sched k).log →
+      k ≤ j → j < m → NoRestart sched k (m + 1) → BeginsAt hz n sched j c → c.sub.seenAttr < i →
+      (∀ t, j < t → t ≤ m → c ∈ (stateAt hz n sched t).ctxs) →
+      i ≤ c.nextAttr ∧
+      (∀ t, j < t → t ≤ m → ∀ ep cl attr, p.matchesPath ep cl attr = true →
+        (stateAt hz n sched t).shouldReportAttr c ep cl attr = true) ∧
+      (sched m = .fin c.sub.id .keep →
+        ¬ Owes (stateAt hz n sched (m + 1)) (stateAt hz n sched k).epoch c.sub.id i) ∧
+      (sched m = .fin c.sub.id .retry →
+        Owes (stateAt hz n sched (m + 1)) (stateAt hz n sched k).epoch c.sub.id i →
+        ∃ x ∈ (stateAt hz n sched (m + 1)).subs, x.id = c.sub.id ∧ x.seenAttr = c.sub.seenAttr ∧
+          x.seenEv = c.sub.seenEv ∧ x.reportedAt = c.sub.reportedAt ∧ x.maxInt = c.sub.maxInt ∧
+          x.minInt = c.sub.minInt) ∧
+      (sched m = .fin c.sub.id .unsent → ∀ ep cl attr, p.matchesPath ep cl attr = false)
+
+theorem C13_full_holds : C13_full := by
+  intro hz n sched hw hok k j m c i p hlog hkj hjm hnr hb hlt hfl
+  have hcm : c ∈ (stateAt hz n sched m).ctxs := hfl m hjm (Nat.le_refl _)
+  refine ⟨begin_snapshot_covers hw hlog hkj (hnr.mono (Nat.le_refl _) (by omega)) hb, ?_, ?_, ?_, ?_⟩
+  · intro t hjt htm ep cl attr hm
+    exact owed_selected_while_alive hw hlog (by omega) (hnr.mono (Nat.le_refl _) (by omega)) (hfl t hjt htm) hlt hm
+  · intro hs
+    exact keep_ends_debt hw hcm hs
+      (begin_snapshot_covers hw hlog hkj (hnr.mono (Nat.le_refl _) (by omega)) hb)
+  · intro hs ho
+    exact retry_returns_same hw hcm hs ho
+  · intro hs ep cl attr
+    exact unsent_discharges_nothing hok hw hs hcm rfl
+      (log_mono_le (by omega) (hnr.mono (Nat.le_refl _) (by omega)) hlog) hlt ep cl attr
+
+/-- **When a change is recorded every live subscription owes it** (its watermark is below the id the
+change gets) and every context alive at that moment — a priming, a report begun earlier — has a
+snapshot below it: such a context cannot discharge the debt, whatever its ending. -/
+theorem change_is_owed_by_every_live_subscription {s : State} (hwf : WF s) (p : Entry) :
+    (s.changed.nextId, p) ∈ (s.change p).log ∧
+    (∀ x ∈ (s.change p).live, x.seenAttr < s.changed.nextId) ∧
+    (∀ c ∈ (s.change p).ctxs, c.nextAttr < s.changed.nextId) :=
+  recorded_change_is_owed hwf p
+
+/-- **The debt lasts until a report that covers it is committed** (`Subs.owes_until_covering_commit`): a
+subscription that owes change `i` at step `k` still owes it at every later step of the boot, unless a
+context of it with a snapshot `≥ i` — by `C13_full` (1): a report **begun after the change** — has ended
+with `keep` or `unsent` in between. Failed reports, acknowledged reports begun before the change, the
+reports / purges / removals concerning others do not end it. With `C13_full` this closes the account of
+one change: owed from the moment it is recorded, carried by every report begun from then on, discharged
+by the first of them that is acknowledged (or by the end of the subscription). -/
+theorem debt_lasts_until_covering_report_is_committed {hz n : Nat} {sched : Nat → Op}
+    (hw : ∀ k, (stateAt hz n sched k).changed.nextId + 1 < U64) {k t id i : Nat} (hkt : k ≤ t)
+    (hid : id < (stateAt hz n sched k).nextSubId)
+    (h0 : ∀ x ∈ (stateAt hz n sched k).live, x.id = id → x.seenAttr < i)
+    (hnr : NoRestart sched k t)
+    (hfin : ∀ u, k ≤ u → u < t → ∀ f c, sched u = .fin id f → c ∈ (stateAt hz n sched u).ctxs →
+      c.sub.id = id → f = .retry ∨ f = .drop ∨ c.nextAttr < i) :
+    ∀ x ∈ (stateAt hz n sched t).live, x.id = id → x.seenAttr < i := by
+  have := owes_until_covering_commit hw hid h0 (t - k) (by rwa [show k + (t - k) = t by omega])
+    (fun u h1 h2 => hfin u h1 (by omega))
+  rw [show k + (t - k) = t by omega] at this
+  exact this.1
+
+/-! ### the statement is false for the code before the repair of `purge_reported_changes` -/
+
+/-- the step function of the unrepaired table: `purge` is `purge_reported_changes` as it was -/
+def stepOld (s : State) : Op → State
+  | .purge => s.purgeOld
+  | op => s.step op
+
+def stateAtOld (hz n : Nat) (sched : Nat → Op) : Nat → State
+  | 0 => State.new hz n
+  | k + 1 => stepOld (stateAtOld hz n sched k) (sched k)
+
+/-- subscriber 1 is priming when the change is recorded; the purge runs; the priming is acknowledged;
+half a maximum interval later the liveness report begins and is acknowledged -/
+def oldSched : Nat → Op
+  | 0 => .add 0 1 10 1 60 0
+  | 1 => .change (P 1 2 3)
+  | 2 => .purge
+  | 3 => .fin 1 .keep
+  | 4 => .report 40000000 0
+  | 5 => .fin 1 .keep
+  | _ => .persist
+
+/-- the context of the liveness report of `oldSched` -/
+def oldCtx : Ctx :=
+  { sub := sub1', nextAttr := 1, nextEv := 0, nextReportedAt := 40000000, nextRetryAt := 0, nextFail := 0 }
+
+/-- **`C13_full` fails for the old `purge_reported_changes`** — every hypothesis of `C13_full` holds on
+the history `oldSched` of the unrepaired table (change 1 of attribute 1.2.3 is in the log at step 2, the
+report of subscription 1 begins at step 4 ≥ 2, the subscription has not seen the change, the context
+lives through step 5 where it ends with `keep`, no `unsent`, no restart, no wrap), **yet the report's
+filter does not select attribute 1.2.3** (clause 2 is false) — the report is acknowledged, the watermark
+moves past the change (the weak statement `eventually_ended_or_delivered_weak` is satisfied), the
+subscriber never gets it. On the repaired table the same history selects it. -/
+theorem C13_full_fails_for_purgeOld :
+    (1, P 1 2 3) ∈ (stateAtOld 1000000 1 oldSched 2).log ∧
+    oldSched 4 = .report 40000000 0 ∧
+    oldCtx ∉ (stateAtOld 1000000 1 oldSched 4).ctxs ∧ oldCtx ∈ (stateAtOld 1000000 1 oldSched 5).ctxs ∧
+    oldCtx.sub.seenAttr < 1 ∧ (P 1 2 3).matchesPath 1 2 3 = true ∧ oldSched 5 = .fin oldCtx.sub.id .keep ∧
+    (stateAtOld 1000000 1 oldSched 5).shouldReportAttr oldCtx 1 2 3 = false ∧
+    (∀ x ∈ (stateAtOld 1000000 1 oldSched 6).live, x.id = 1 → 1 ≤ x.seenAttr) ∧
+    oldCtx ∈ (stateAt 1000000 1 oldSched 5).ctxs ∧
+    (stateAt 1000000 1 oldSched 5).shouldReportAttr oldCtx 1 2 3 = true := by
+  refine ⟨by decide, rfl, by decide, by decide, by decide, by decide, rfl, by decide, by decide, by decide,
+    by decide⟩
+
+/-! ### the weak eventuality (kept under an honest name) -/
+
+/-- **Weak statement** (the former `C13_full`): along every fair schedule a subscription that owes a
+recorded change does not owe it for ever. **This follows from `Fair` and expiry alone** — `Fair.sweeps`
+with `Fair.horizon` force an expiry sweep at the end of the clock that removes every subscription
+(`fair_schedule_sweeps_every_subscription`), so the disjunct "the subscription has ended" is eventually
+true in every fair schedule whatever `report` / `purge` / `fin` do; the statement also holds for the
+unrepaired `purge_reported_changes`, and "does not owe" is reached by an `unsent` ending as well
+(`unsent_while_owed_loses_change`). It says nothing about delivery; `C13_full` does. -/
+def C13_weak : Prop :=
   ∀ (hz n : Nat) (sched : Nat → Op), Fair hz n sched →
     (∀ k, (stateAt hz n sched k).changed.nextId + 1 < U64) →
     ∀ k id i p, (i, p) ∈ (stateAt hz n sched k).log →
       Owes (stateAt hz n sched k) (stateAt hz n sched k).epoch id i →
       ∃ k', k ≤ k' ∧ ¬ Owes (stateAt hz n sched k') (stateAt hz n sched k).epoch id i
 
-/-- `C13_full` is proved (by contradiction over the tracking invariant `Subs.Track`: an owing
-subscription that has been in the table since the change was recorded keeps its last-success instant
-`R` through every retry, every report begun for it snapshots a watermark ≥ `i`, so an acknowledgement
-ends the debt; if none comes, the sweep of a reporter pass at or after `R + max_int` removes it). -/
-theorem C13_full_holds : C13_full :=
+theorem C13_weak_holds : C13_weak :=
   fun _ _ _ hf hw k id i p hlog _ => eventually_not_owes hf hw k id i p hlog
+
+/-- why `C13_weak` is weak: `Fair` alone (nothing about reports) empties the table of every
+subscription that has an expiry base, again and again -/
+theorem fair_schedule_sweeps_every_subscription {hz n : Nat} {sched : Nat → Op} (hf : Fair hz n sched)
+    (k : Nat) : ∃ k', k ≤ k' ∧ ∀ x ∈ (stateAt hz n sched (k' + 1)).subs, x.expiryBase = IMAX := by
+  obtain ⟨k', now, p, hk, hnow, hs, hp, _⟩ := hf.sweeps k (IMAX - 1) (by decide)
+  refine ⟨k', hk, ?_⟩
+  intro x hx
+  have hx' : x ∈ ((stateAt hz n sched k').step (sched k')).subs := hx
+  rw [hs] at hx'
+  simp only [State.step] at hx'
+  obtain ⟨cx, h1⟩ := remove_shape (stateAt hz n sched k') p
+  rw [h1] at hx'
+  simp only [rmTo] at hx'
+  have hno := removeLoop_all p _ (stateAt hz n sched k').subs (stateAt hz n sched k').count (by omega) x hx'
+  apply Classical.byContradiction
+  intro hne
+  obtain ⟨rem, hperm⟩ := removeLoop_perm p ((stateAt hz n sched k').subs.length + 1)
+    (stateAt hz n sched k').subs (stateAt hz n sched k').count
+  have hmem : x ∈ (stateAt hz n sched k').subs := hperm.subset (List.mem_append_right _ hx')
+  have hlive : x ∈ (stateAt hz n sched k').live := by simp [State.live, hmem]
+  have hh := hf.horizon k' x hlive hne
+  have hexp := expired_of (x := x) (hz := hz) (now := now) rfl rfl hh (by omega)
+  rw [hp x hexp] at hno
+  cases hno
 
 /-- what "does not owe any more" means: the device restarted, or the subscription has ended, or its
 acknowledged watermark has reached the change -/
@@ -620,12 +776,11 @@ theorem not_owes_iff {s : State} (hu : UID s) (ep id i : Nat) :
       subst this
       omega
 
-/-- **Eventual delivery, spelled out**: along a fair schedule every change a live subscription has
-not seen is, after finitely many steps, covered by an acknowledged report of that subscription (its
-committed watermark is ≥ the change id: `keep_commits_snapshot`, and while the report was in flight
-its filter selected the change: `owed_in_report`), or the subscription has ended, or the device has
-restarted (after which the resumed subscription is not primed and gets everything). -/
-theorem C13_delivered_or_ended {hz n : Nat} {sched : Nat → Op} (hf : Fair hz n sched)
+/-- the weak statement spelled out: along a fair schedule, after finitely many steps the device has
+restarted, **or the subscription has ended** (which `Fair` forces sooner or later by itself, see
+`C13_weak`), or the subscription's committed watermark is ≥ the change id (by a `keep` — or by an
+`unsent` — ending). Not a delivery statement. -/
+theorem eventually_ended_or_delivered_weak {hz n : Nat} {sched : Nat → Op} (hf : Fair hz n sched)
     (hw : ∀ k, (stateAt hz n sched k).changed.nextId + 1 < U64)
     (k id i : Nat) (p : Entry) (hlog : (i, p) ∈ (stateAt hz n sched k).log) :
     ∃ k', k ≤ k' ∧
@@ -771,13 +926,14 @@ theorem resumed_reports_everything (s : State) (now ev t : Nat) (x : Sub)
   intro c hc ep cl attr
   simp [State.shouldReportAttr, hc, h1]
 
-/-- **The reporter picks an owing subscription up** (what makes `C13_full` more than "it expires"):
-if the reporter's passes complete again and again while time advances (`Idle`), a subscription of the
-table that owes a recorded change does not sit in the table for ever — it leaves it, and
-(`Subs.leaves_table`) it can only leave it because the reporter begins a report for it whose snapshot
-is the current watermark (≥ the change, and `owed_in_report`: the report's filter selects it), or
-because a removal matches it, or by a restart. -/
-theorem report_begins {hz n : Nat} {sched : Nat → Op} (hidle : Idle hz n sched)
+/-- **If the reporter's passes end, an owing subscription has been picked up.** `Idle` ("again and
+again, at later and later instants, a `report` call finds nothing reportable") is a **no-starvation
+assumption** about the load — it can fail (`starvation_cycle`) — and with `T = report_allowed_at x` it
+says almost directly that no owing `x` sits in the table then: this theorem is essentially its
+contrapositive plus `leaves_table` (a subscription leaves the table only by a report of its own, a
+removal, a restart). The statement that needs no such assumption is `owed_report_begins_at_call`:
+at every reporter call after the gate at which `x` is first in line, `x`'s report begins. -/
+theorem report_begins_if_passes_end {hz n : Nat} {sched : Nat → Op} (hidle : Idle hz n sched)
     (hw : ∀ k, (stateAt hz n sched k).changed.nextId + 1 < U64) (k : Nat)
     {x : Sub} (hx : x ∈ (stateAt hz n sched k).subs) {i : Nat} {p : Entry}
     (hlog : (i, p) ∈ (stateAt hz n sched k).log) (hlt : x.seenAttr < i)
@@ -965,6 +1121,43 @@ example : ∃ (hz n : Nat) (sched : Nat → Op), Fair hz n sched ∧
     exact h x hx ⟨hid, hlt⟩
 
 
+/-- the context of the report that begins at step 3 of `fairSched` -/
+def fairCtx : Ctx :=
+  { sub := sub1', nextAttr := 1, nextEv := 0, nextReportedAt := 5000000, nextRetryAt := 0, nextFail := 0 }
+
+theorem fairSched_no_unsent (k id : Nat) : fairSched k ≠ .fin id .unsent := by
+  unfold fairSched
+  split <;> simp
+
+theorem fairSched_no_restart (a b : Nat) : NoRestart fairSched a b := by
+  intro t _ _ now ev h
+  unfold fairSched at h
+  split at h <;> cases h
+
+/-- **the hypotheses of `C13_full` are satisfiable** (and its conclusions are seen at work): on
+`fairSched` change 1 is in the log at step 3, the report of subscription 1 begins at step 3, lives
+through step 4 and ends there with `keep` -/
+example : ∃ (hz n : Nat) (sched : Nat → Op) (k j m : Nat) (c : Ctx) (i : Nat) (p : Entry),
+    (∀ k, (stateAt hz n sched k).changed.nextId + 1 < U64) ∧ UnsentOk hz n sched ∧
+    (i, p) ∈ (stateAt hz n sched k).log ∧ k ≤ j ∧ j < m ∧ NoRestart sched k (m + 1) ∧
+    BeginsAt hz n sched j c ∧ c.sub.seenAttr < i ∧
+    (∀ t, j < t → t ≤ m → c ∈ (stateAt hz n sched t).ctxs) ∧ sched m = .fin c.sub.id .keep ∧
+    (stateAt hz n sched m).shouldReportAttr c 1 2 3 = true :=
+  ⟨1000000, 1, fairSched, 3, 3, 4, fairCtx, 1, P 1 2 3, fair_nowrap,
+    fun k id hs => absurd hs (fairSched_no_unsent k id), by decide, by omega, by omega,
+    fairSched_no_restart _ _, ⟨5000000, 0, rfl, by decide, by decide⟩, by decide,
+    fun t h1 h2 => by
+      have : t = 4 := by omega
+      subst this; decide,
+    rfl, by decide⟩
+
+/-- the hypotheses of `debt_lasts_until_covering_report_is_committed` are satisfiable: on `fairSched`, subscription 1 owes change 1 from step 3 to step 4 (its
+covering report is committed at step 4) -/
+example : (∀ x ∈ (stateAt 1000000 1 fairSched 3).live, x.id = 1 → x.seenAttr < 1) ∧
+    (∀ x ∈ (stateAt 1000000 1 fairSched 4).live, x.id = 1 → x.seenAttr < 1) ∧
+    1 < (stateAt 1000000 1 fairSched 3).nextSubId := by
+  refine ⟨by decide, by decide, by decide⟩
+
 /-- like `fairSched`, then one expiry sweep and reporter passes that find nothing for ever -/
 def idleSched : Nat → Op
   | 0 => .add 0 1 10 1 60 0
@@ -1000,8 +1193,8 @@ theorem idle_example : Idle 1000000 1 idleSched := by
   rw [iS_ge (k + 6) (by omega)]
   rfl
 
-/-- the hypotheses of `report_begins` are satisfiable: after step 2 subscription 1 sits in the table
-and owes change 1 -/
+/-- the hypotheses of `report_begins_if_passes_end` are satisfiable: after step 2 subscription 1 sits in
+the table and owes change 1 -/
 example : ∃ (hz n : Nat) (sched : Nat → Op) (k : Nat) (x : Sub) (i : Nat) (p : Entry),
     Idle hz n sched ∧ (∀ k, (stateAt hz n sched k).changed.nextId + 1 < U64) ∧
     x ∈ (stateAt hz n sched k).subs ∧ (i, p) ∈ (stateAt hz n sched k).log ∧ x.seenAttr < i ∧
@@ -1021,6 +1214,458 @@ example : ∃ (hz n : Nat) (sched : Nat → Op) (k : Nat) (x : Sub) (i : Nat) (p
     unfold idleSched at h
     split at h <;> cases h
 
+
+/-! ### (b) Progress without a starvation assumption -/
+
+/-- **Progress, per reporter call** (`Subs.owed_report_begins_at_call`): an owing subscription `x` of the
+table gets its report begun at **any** reporter call `report(now, ev)` with
+`now ≥ report_allowed_at x = max(reported_at + min_interval, retry gate)` at which no subscription ahead
+of it in the table is reportable; the context snapshots a watermark `≥ i` and its begin instant is
+`now`. With `wake_not_late` (the reporter's timer is not later than the gate) the delay beyond
+`max(t, reported_at + min_interval)` is the reporter's scheduling latency plus the reports of the
+subscriptions ahead of `x`. No fairness, no `Idle`. -/
+theorem report_begins_at_call {hz n : Nat} {sched : Nat → Op}
+    (hw : ∀ k, (stateAt hz n sched k).changed.nextId + 1 < U64) {k j : Nat} {x : Sub} {i : Nat} {p : Entry}
+    (hlog : (i, p) ∈ (stateAt hz n sched k).log) (hkj : k ≤ j) (hnr : NoRestart sched k j)
+    (hx : x ∈ (stateAt hz n sched j).subs) (hlt : x.seenAttr < i) {now ev : Nat}
+    (hs : sched j = .report now ev) (hgate : x.reportAllowedAt hz ≤ now)
+    (hfirst : FirstInLine hz (stateAt hz n sched j).subs x now (stateAt hz n sched j).changed.entries ev) :
+    ∃ c, BeginsAt hz n sched j c ∧ c.sub = x ∧ i ≤ c.nextAttr ∧ c.nextReportedAt = now :=
+  owed_report_begins_at_call hw hlog hkj hnr hx hlt hs hgate hfirst
+
+/-- the hypotheses are satisfiable: on `fairSched`, subscription 1 (the only one) at the call of step 3 -/
+example : ∃ (hz n : Nat) (sched : Nat → Op) (k j : Nat) (x : Sub) (i : Nat) (p : Entry) (now ev : Nat),
+    (∀ k, (stateAt hz n sched k).changed.nextId + 1 < U64) ∧ (i, p) ∈ (stateAt hz n sched k).log ∧ k ≤ j ∧
+    NoRestart sched k j ∧ x ∈ (stateAt hz n sched j).subs ∧ x.seenAttr < i ∧ sched j = .report now ev ∧
+    x.reportAllowedAt hz ≤ now ∧
+    FirstInLine hz (stateAt hz n sched j).subs x now (stateAt hz n sched j).changed.entries ev :=
+  ⟨1000000, 1, fairSched, 3, 3, sub1', 1, P 1 2 3, 5000000, 0, fair_nowrap, by decide, by omega,
+    fairSched_no_restart _ _, by decide, by decide, rfl, by decide,
+    by
+      have : (stateAt 1000000 1 fairSched 3).subs = [sub1'] := by decide
+      rw [this]; exact firstInLine_sole _ _ _ _ _⟩
+
+/-- **Delivery in a bounded window** (composition of (b), `C13_full` and the transport assumption of an
+established subscriber — "the report that begins is completed with `keep`"): if `x` owes `(i, p)`, the
+reporter calls `report` at step `j` with the gate open and `x` first in line, and the context created
+there ends at step `m` with `keep`, then from `j + 1` to `m` the report's filter selects every attribute
+`p` touches and after step `m` the subscription does not owe the change. -/
+theorem delivered_by_kept_report {hz n : Nat} {sched : Nat → Op}
+    (hw : ∀ k, (stateAt hz n sched k).changed.nextId + 1 < U64) (hok : UnsentOk hz n sched)
+    {k j m : Nat} {x : Sub} {i : Nat} {p : Entry}
+    (hlog : (i, p) ∈ (stateAt hz n sched k).log) (hkj : k ≤ j) (hjm : j < m)
+    (hnr : NoRestart sched k (m + 1))
+    (hx : x ∈ (stateAt hz n sched j).subs) (hlt : x.seenAttr < i) {now ev : Nat}
+    (hs : sched j = .report now ev) (hgate : x.reportAllowedAt hz ≤ now)
+    (hfirst : FirstInLine hz (stateAt hz n sched j).subs x now (stateAt hz n sched j).changed.entries ev)
+    (hend : sched m = .fin x.id .keep)
+    (halive : ∀ c, BeginsAt hz n sched j c → c.sub = x → ∀ t, j < t → t ≤ m → c ∈ (stateAt hz n sched t).ctxs) :
+    ∃ c, BeginsAt hz n sched j c ∧ c.sub = x ∧ c.nextReportedAt = now ∧
+      (∀ t, j < t → t ≤ m → ∀ ep cl attr, p.matchesPath ep cl attr = true →
+        (stateAt hz n sched t).shouldReportAttr c ep cl attr = true) ∧
+      ¬ Owes (stateAt hz n sched (m + 1)) (stateAt hz n sched k).epoch x.id i := by
+  obtain ⟨c, hb, hcx, _, hnow⟩ :=
+    owed_report_begins_at_call hw hlog hkj (hnr.mono (Nat.le_refl _) (by omega)) hx hlt hs hgate hfirst
+  obtain ⟨_, h2, h3, _, _⟩ := C13_full_holds hz n sched hw hok k j m c i p hlog hkj hjm hnr hb
+    (by rw [hcx]; exact hlt) (halive c hb hcx)
+  refine ⟨c, hb, hcx, hnow, h2, ?_⟩
+  have := h3 (by rw [hcx]; exact hend)
+  rwa [hcx] at this
+
+/-- the hypotheses of `delivered_by_kept_report` are satisfiable: `fairSched`, call at step 3, `keep` at
+step 4 -/
+example : ∃ (hz n : Nat) (sched : Nat → Op) (k j m : Nat) (x : Sub) (i : Nat) (p : Entry) (now ev : Nat),
+    (∀ k, (stateAt hz n sched k).changed.nextId + 1 < U64) ∧ UnsentOk hz n sched ∧
+    (i, p) ∈ (stateAt hz n sched k).log ∧ k ≤ j ∧ j < m ∧ NoRestart sched k (m + 1) ∧
+    x ∈ (stateAt hz n sched j).subs ∧ x.seenAttr < i ∧ sched j = .report now ev ∧
+    x.reportAllowedAt hz ≤ now ∧
+    FirstInLine hz (stateAt hz n sched j).subs x now (stateAt hz n sched j).changed.entries ev ∧
+    sched m = .fin x.id .keep ∧
+    (∀ c, BeginsAt hz n sched j c → c.sub = x → ∀ t, j < t → t ≤ m → c ∈ (stateAt hz n sched t).ctxs) :=
+  ⟨1000000, 1, fairSched, 3, 3, 4, sub1', 1, P 1 2 3, 5000000, 0, fair_nowrap,
+    fun k id hs => absurd hs (fairSched_no_unsent k id), by decide, by omega, by omega,
+    fairSched_no_restart _ _, by decide, by decide, rfl, by decide,
+    by
+      have : (stateAt 1000000 1 fairSched 3).subs = [sub1'] := by decide
+      rw [this]; exact firstInLine_sole _ _ _ _ _,
+    rfl,
+    fun c hb hcx t h1 h2 => by
+      have ht : t = 4 := by omega
+      subst ht
+      have hc : c = fairCtx := by
+        cases c with
+        | mk sub na ne nr nrt nf =>
+          obtain ⟨_, _, _, _, hmem⟩ := hb
+          have : (stateAt 1000000 1 fairSched (3 + 1)).ctxs = [fairCtx] := by decide
+          rw [this] at hmem
+          exact List.mem_singleton.mp hmem
+      rw [hc]; decide⟩
+
+/-! ### Timing, on runs (for every history, not for one value) -/
+
+/-- **"Reports are not sent more often than the minimum interval" — on runs**
+(`Subs.min_interval_between_report_begins`): after an acknowledged report of a subscription that began
+at the instant `a`, the next report of that subscription — whenever and after however many failed or
+unsent attempts — begins at an instant `b ≥ a + min_interval`. -/
+theorem min_interval_on_runs {hz n : Nat} {sched : Nat → Op}
+    (hw : ∀ k, (stateAt hz n sched k).changed.nextId + 1 < U64) {m1 j2 : Nat} {c1 c2 : Ctx}
+    (hc1 : c1 ∈ (stateAt hz n sched m1).ctxs) (hs1 : sched m1 = .fin c1.sub.id .keep) (hlt : m1 < j2)
+    (hnr : NoRestart sched (m1 + 1) j2)
+    (hnk : ∀ t, m1 < t → t < j2 → sched t ≠ .fin c1.sub.id .keep)
+    (hb : BeginsAt hz n sched j2 c2) (hid : c2.sub.id = c1.sub.id)
+    (hprimed : c1.nextReportedAt ≠ IMAX) (hno : c1.nextReportedAt + c1.sub.minInt * hz ≤ IMAX) :
+    c1.nextReportedAt + c1.sub.minInt * hz ≤ c2.nextReportedAt :=
+  min_interval_between_report_begins hw hc1 hs1 hlt hnr hnk hb hid hprimed hno
+
+/-- **"The subscription ends no later than one maximum interval after the last success" — on runs**
+(`Subs.unacknowledged_expires_by_max`): after an acknowledged report begun at `R`, with no acknowledged
+report since, any expiry sweep of the reporter at an instant `≥ R + max_interval` leaves no such
+subscription in the table and cancels its in-flight report, whatever happened in between. (That such a
+sweep runs is the reporter's business: it sweeps at the begin of every pass and its timer is not later
+than `max(report_allowed_at, R + max_interval)`, `wake_before_max`.) -/
+theorem expiry_on_runs {hz n : Nat} {sched : Nat → Op}
+    (hw : ∀ k, (stateAt hz n sched k).changed.nextId + 1 < U64) {m1 t : Nat} {c1 : Ctx}
+    (hc1 : c1 ∈ (stateAt hz n sched m1).ctxs) (hs1 : sched m1 = .fin c1.sub.id .keep) (hlt : m1 < t)
+    (hnr : NoRestart sched (m1 + 1) t)
+    (hnk : ∀ u, m1 < u → u < t → sched u ≠ .fin c1.sub.id .keep)
+    {pr : Sub → Bool} {now : Nat} (hs : sched t = .remove pr)
+    (hp : ∀ x : Sub, x.isExpired hz now = true → pr x = true)
+    (hprimed : c1.nextReportedAt ≠ IMAX) (hnow : c1.nextReportedAt + c1.sub.maxInt * hz ≤ now)
+    (hle : now ≤ IMAX) :
+    (∀ x ∈ (stateAt hz n sched (t + 1)).subs, x.id ≠ c1.sub.id) ∧
+    (∀ r, (stateAt hz n sched t).reporting = some r → r.id = c1.sub.id →
+      (stateAt hz n sched (t + 1)).cancelled = true ∧ (stateAt hz n sched (t + 1)).reporting = some r) :=
+  unacknowledged_expires_by_max hw hc1 hs1 hlt hnr hnk hs hp hprimed hnow hle
+
+/-- **"A liveness report goes out before the maximum interval elapses" — on runs**: after an
+acknowledged report begun at `R` (none since), at any reporter call at an instant
+`now ≥ max(report_allowed_at, R + (max − max/2))` at which the subscription is in the table and first in
+line, its report begins — with nothing pending at all. `R + (max − max/2) ≤ R + max`
+(`liveness_before_max`). -/
+theorem liveness_on_runs {hz n : Nat} {sched : Nat → Op}
+    (hw : ∀ k, (stateAt hz n sched k).changed.nextId + 1 < U64) {m1 j2 : Nat} {c1 : Ctx} {x : Sub}
+    (hc1 : c1 ∈ (stateAt hz n sched m1).ctxs) (hs1 : sched m1 = .fin c1.sub.id .keep) (hlt : m1 < j2)
+    (hnr : NoRestart sched (m1 + 1) j2)
+    (hnk : ∀ t, m1 < t → t < j2 → sched t ≠ .fin c1.sub.id .keep)
+    (hx : x ∈ (stateAt hz n sched j2).subs) (hid : x.id = c1.sub.id) {now ev : Nat}
+    (hs : sched j2 = .report now ev) (hgate : x.reportAllowedAt hz ≤ now)
+    (hno : c1.nextReportedAt + (c1.sub.maxInt - c1.sub.maxInt / 2) * hz ≤ IMAX)
+    (hdue : c1.nextReportedAt + (c1.sub.maxInt - c1.sub.maxInt / 2) * hz ≤ now)
+    (hfirst : FirstInLine hz (stateAt hz n sched j2).subs x now (stateAt hz n sched j2).changed.entries ev) :
+    ∃ c, BeginsAt hz n sched j2 c ∧ c.sub = x ∧ c.nextReportedAt = now := by
+  obtain ⟨k1, k2⟩ := keptIs_after_keep hw hc1 hs1
+  have hrun := keptIs_run hw k2 k1 (j2 - (m1 + 1)) (by rwa [show m1 + 1 + (j2 - (m1 + 1)) = j2 by omega])
+    (fun t h1 h2 => hnk t (by omega) (by omega))
+  rw [show m1 + 1 + (j2 - (m1 + 1)) = j2 by omega] at hrun
+  obtain ⟨a1, _, a3⟩ := hrun.1 x (mem_live.mpr (Or.inl hx)) hid
+  have hrep : x.isReportable (stateAt hz n sched j2).hz now (stateAt hz n sched j2).changed.entries ev = true := by
+    rw [hz_stateAt]
+    exact liveness_due hz x now _ ev (by rw [a1, a3]; exact hno) hgate (by rw [a1, a3]; exact hdue)
+  have hfl' : FirstInLine (stateAt hz n sched j2).hz (stateAt hz n sched j2).subs x now
+      (stateAt hz n sched j2).changed.entries ev := by rw [hz_stateAt]; exact hfirst
+  obtain ⟨_, hmem⟩ := report_serves_first hfl' hrep
+  have hu := (inv_stateAt hz n sched hw j2).2.2
+  refine ⟨{ sub := x, nextAttr := (stateAt hz n sched j2).changed.watermark, nextEv := ev, nextReportedAt := now,
+            nextRetryAt := 0, nextFail := 0 }, ⟨now, ev, hs, ?_, ?_⟩, rfl, rfl⟩
+  · intro hc
+    exact uid_table_ctx hu hx hc rfl
+  · show _ ∈ ((stateAt hz n sched j2).step (sched j2)).ctxs
+    rw [hs]; exact hmem
+
+/-- two kept reports of one subscriber, the second one a liveness report half a maximum interval later
+(the hypotheses of `min_interval_on_runs` / `liveness_on_runs` are satisfiable) -/
+def twoReports : Nat → Op
+  | 0 => .add 0 1 10 1 60 0
+  | 1 => .fin 1 .keep
+  | 2 => .change (P 1 2 3)
+  | 3 => .report 5000000 0
+  | 4 => .fin 1 .keep
+  | 5 => .report 35000000 0
+  | 6 => .fin 1 .keep
+  | 7 => .remove (fun x => x.isExpired 1000000 95000000)
+  | _ => .persist
+
+def ctxA : Ctx :=
+  { sub := sub1', nextAttr := 1, nextEv := 0, nextReportedAt := 5000000, nextRetryAt := 0, nextFail := 0 }
+def ctxB : Ctx :=
+  { sub := { sub1' with seenAttr := 1, reportedAt := 5000000 }, nextAttr := 1, nextEv := 0,
+    nextReportedAt := 35000000, nextRetryAt := 0, nextFail := 0 }
+
+theorem twoReports_nowrap : ∀ k, (stateAt 1000000 1 twoReports k).changed.nextId + 1 < U64 := by
+  have hc : ∀ j, stateAt 1000000 1 twoReports (8 + j) = (stateAt 1000000 1 twoReports 8) := by
+    intro j
+    induction j with
+    | zero => rfl
+    | succ j ih =>
+      show (stateAt 1000000 1 twoReports (8 + j)).step (twoReports (8 + j)) = _
+      rw [ih]
+      have : twoReports (8 + j) = .persist := by
+        unfold twoReports
+        split <;> first | rfl | omega
+      rw [this]; rfl
+  intro k
+  match k with
+  | 0 => decide
+  | 1 => decide
+  | 2 => decide
+  | 3 => decide
+  | 4 => decide
+  | 5 => decide
+  | 6 => decide
+  | 7 => decide
+  | k + 8 => rw [show k + 8 = 8 + k by omega, hc k]; decide
+
+theorem twoReports_no_restart (a b : Nat) : NoRestart twoReports a b := by
+  intro t _ _ now ev h
+  unfold twoReports at h
+  split at h <;> cases h
+
+example : ∃ (hz n : Nat) (sched : Nat → Op) (m1 j2 : Nat) (c1 c2 : Ctx),
+    (∀ k, (stateAt hz n sched k).changed.nextId + 1 < U64) ∧ c1 ∈ (stateAt hz n sched m1).ctxs ∧
+    sched m1 = .fin c1.sub.id .keep ∧ m1 < j2 ∧ NoRestart sched (m1 + 1) j2 ∧
+    (∀ t, m1 < t → t < j2 → sched t ≠ .fin c1.sub.id .keep) ∧ BeginsAt hz n sched j2 c2 ∧
+    c2.sub.id = c1.sub.id ∧ c1.nextReportedAt ≠ IMAX ∧ c1.nextReportedAt + c1.sub.minInt * hz ≤ IMAX ∧
+    c1.nextReportedAt + c1.sub.minInt * hz ≤ c2.nextReportedAt :=
+  ⟨1000000, 1, twoReports, 4, 5, ctxA, ctxB, twoReports_nowrap, by decide, rfl, by omega,
+    twoReports_no_restart _ _, fun t h1 h2 => by omega, ⟨35000000, 0, rfl, by decide, by decide⟩, rfl,
+    by decide, by decide, by decide⟩
+
+/-- the hypotheses of `liveness_on_runs` are satisfiable: on `twoReports` the call of step 5 comes at 35 s
+= the begin of the last acknowledged report (5 s) + half the maximum interval (30 s), nothing is pending -/
+example : ∃ (hz n : Nat) (sched : Nat → Op) (m1 j2 : Nat) (c1 : Ctx) (x : Sub) (now ev : Nat),
+    c1 ∈ (stateAt hz n sched m1).ctxs ∧ sched m1 = .fin c1.sub.id .keep ∧ m1 < j2 ∧
+    NoRestart sched (m1 + 1) j2 ∧ (∀ t, m1 < t → t < j2 → sched t ≠ .fin c1.sub.id .keep) ∧
+    x ∈ (stateAt hz n sched j2).subs ∧ x.id = c1.sub.id ∧ sched j2 = .report now ev ∧
+    x.reportAllowedAt hz ≤ now ∧
+    c1.nextReportedAt + (c1.sub.maxInt - c1.sub.maxInt / 2) * hz ≤ IMAX ∧
+    c1.nextReportedAt + (c1.sub.maxInt - c1.sub.maxInt / 2) * hz ≤ now ∧
+    x.pending (stateAt hz n sched j2).changed.entries ev = false ∧
+    FirstInLine hz (stateAt hz n sched j2).subs x now (stateAt hz n sched j2).changed.entries ev :=
+  ⟨1000000, 1, twoReports, 4, 5, ctxA, ctxB.sub, 35000000, 0, by decide, rfl, by omega,
+    twoReports_no_restart _ _, fun t h1 h2 => by omega, by decide, rfl, rfl, by decide, by decide, by decide,
+    by decide,
+    by
+      have : (stateAt 1000000 1 twoReports 5).subs = [ctxB.sub] := by decide
+      rw [this]; exact firstInLine_sole _ _ _ _ _⟩
+
+/-- the hypotheses of `expiry_on_runs` are satisfiable: the sweep of step 7 runs at 95 s, the last kept
+report of subscription 1 began at 35 s, its maximum interval is 60 s -/
+example : ∃ (hz n : Nat) (sched : Nat → Op) (m1 t : Nat) (c1 : Ctx) (pr : Sub → Bool) (now : Nat),
+    c1 ∈ (stateAt hz n sched m1).ctxs ∧ sched m1 = .fin c1.sub.id .keep ∧ m1 < t ∧
+    NoRestart sched (m1 + 1) t ∧ (∀ u, m1 < u → u < t → sched u ≠ .fin c1.sub.id .keep) ∧
+    sched t = .remove pr ∧ (∀ x : Sub, x.isExpired hz now = true → pr x = true) ∧
+    c1.nextReportedAt ≠ IMAX ∧ c1.nextReportedAt + c1.sub.maxInt * hz ≤ now ∧ now ≤ IMAX ∧
+    (stateAt hz n sched t).subs.map (·.id) = [1] ∧ (stateAt hz n sched (t + 1)).subs = [] :=
+  ⟨1000000, 1, twoReports, 6, 7, ctxB, _, 95000000, by decide, rfl, by omega, twoReports_no_restart _ _,
+    fun u h1 h2 => by omega, rfl, fun _ h => h, by decide, by decide, by decide, by decide, by decide⟩
+
+/-! ### Events: the watermark is the largest pushed event number (`Lemmas/SubsEvents.lean`) -/
+
+/-- **`Events::push` and the watermark**: `push` assigns the number after the watermark and the
+watermark then equals the number just assigned — the snapshot a report takes (`EvTied`) is the largest
+event number pushed so far. -/
+theorem watermark_is_last_pushed_number (q : EvQ) (h1 : 1 ≤ q.next) (h2 : q.next + 1 < U64) :
+    q.push.1 = q.watermark + 1 ∧ q.push.2.watermark = q.push.1 :=
+  ⟨(push_number q h1 h2).1, (push_number q h1 h2).2.1⟩
+
+/-- **No event is skipped** (`Subs.later_event_is_unseen`): along every history whose table operations are
+handed the queue's watermark (`EvTied`: what `im.rs` does), an event pushed after step `k` has a number
+above everything a subscription live at step `k` has seen or is about to commit. -/
+theorem no_event_skipped {hz n : Nat} {sched : Nat → Op} {evq : Nat → EvQ} (hm : EvMono evq)
+    (ht : EvTied sched evq) (k e : Nat) (he : (evq k).watermark < e) :
+    (∀ x ∈ (stateAt hz n sched k).subs, x.seenEv < e) ∧
+    (∀ c ∈ (stateAt hz n sched k).ctxs, c.sub.seenEv < e ∧ c.nextEv < e) :=
+  later_event_is_unseen hm ht k e he
+
+/-- **"Every subscribed event that occurs … is reported" — the table's part, on runs**
+(`Subs.event_in_next_report`): an event pushed with number `e` that a live subscription has not seen is
+considered by the event reader of the next report that begins for that subscription
+(`max_seen < e ≤ next_max_seen`), failed attempts in between notwithstanding; an acknowledgement of that
+report moves the subscription's event watermark to `≥ e`; and until then the subscription is pending
+(`event_makes_pending`), hence reportable as soon as its gate opens. Which of the numbered events the
+subscription's event paths select, and whether the requester may read them, is C06's `report_events`. -/
+theorem subscribed_event_in_next_report {hz n : Nat} {sched : Nat → Op} {evq : Nat → EvQ}
+    (hw : ∀ k, (stateAt hz n sched k).changed.nextId + 1 < U64) (hm : EvMono evq) (ht : EvTied sched evq)
+    {k j e : Nat} {x : Sub} (hx : x ∈ (stateAt hz n sched k).live) (hp : Pushed evq k e)
+    (hlt : x.seenEv < e) (hkj : k ≤ j) (hnr : NoRestart sched k j)
+    (hnk : ∀ t, k ≤ t → t < j → sched t ≠ .fin x.id .keep ∧ sched t ≠ .fin x.id .unsent)
+    {c : Ctx} (hb : BeginsAt hz n sched j c) (hid : c.sub.id = x.id) :
+    c.eventInRange e = true ∧ e ≤ (finSub hz c .keep).seenEv ∧
+    (finSub hz c .retry).seenEv = c.sub.seenEv :=
+  ⟨(event_in_next_report hw hm ht hx hp hlt hkj hnr hnk hb hid).1,
+   (event_in_next_report hw hm ht hx hp hlt hkj hnr hnk hb hid).2, (event_range_commit hz c).2.1⟩
+
+/-- a history with events: the subscriber is primed, two events are pushed (numbers 1 and 2), the report
+begins with the watermark 2 and is acknowledged -/
+def evSched : Nat → Op
+  | 0 => .add 0 1 10 1 60 0
+  | 1 => .fin 1 .keep
+  | 2 => .report 5000000 2
+  | 3 => .fin 1 .keep
+  | _ => .persist
+
+/-- the queue of `evSched`: two events are pushed between step 1 and step 2 -/
+def evQs (k : Nat) : EvQ := if k ≤ 1 then { next := 1 } else { next := 3 }
+
+theorem evSched_tied : EvTied evSched evQs := by
+  intro k ev h
+  match k, h with
+  | 0, h => simp [evSched, Op.evParam] at h; subst h; decide
+  | 1, h => simp [evSched, Op.evParam] at h
+  | 2, h => simp [evSched, Op.evParam] at h; subst h; decide
+  | 3, h => simp [evSched, Op.evParam] at h
+  | k + 4, h =>
+    have : evSched (k + 4) = .persist := by
+      unfold evSched
+      split <;> first | rfl | omega
+    rw [this] at h; simp [Op.evParam] at h
+
+theorem evQs_mono : EvMono evQs := by
+  refine ⟨fun k => ?_, fun k => ?_, fun k => ?_⟩
+  · unfold evQs; split <;> decide
+  · unfold evQs; split <;> decide
+  · unfold evQs
+    by_cases h1 : k ≤ 1
+    · by_cases h2 : k + 1 ≤ 1 <;> simp [h1, h2]
+    · have h2 : ¬ (k + 1 ≤ 1) := by omega
+      simp [h1, h2]
+
+/-- the hypotheses of `subscribed_event_in_next_report` are satisfiable, and event 2 is in the range of
+the report that begins at step 2 -/
+example : EvMono evQs ∧ EvTied evSched evQs ∧ Pushed evQs 2 2 ∧
+    (∃ x ∈ (stateAt 1000000 1 evSched 2).live, x.id = 1 ∧ x.seenEv < 2) ∧
+    (∃ c, BeginsAt 1000000 1 evSched 2 c ∧ c.sub.id = 1 ∧ c.eventInRange 2 = true ∧ c.eventInRange 1 = true) :=
+  ⟨evQs_mono, evSched_tied, ⟨by decide, by decide⟩, ⟨sub1', by decide, rfl, by decide⟩,
+    ⟨{ sub := sub1', nextAttr := 0, nextEv := 2, nextReportedAt := 5000000, nextRetryAt := 0, nextFail := 0 },
+      ⟨5000000, 2, rfl, by decide, by decide⟩, rfl, by decide, by decide⟩⟩
+
+/-! ### Events: the CONTENT of a report — the event rings and the reader's running watermark
+
+The table hands the reader a number range; what the report carries is decided by the queue's rings
+(`Chunk.Queue`, the transliteration of `im/events.rs` shared with C14 and tied to the real queue ring by ring in
+C13's `evs` stream) and by `EventReader::process_read`, which keeps a running watermark and skips every event at
+or below it (`Subs.readEvents`). -/
+
+/-- **the code's iteration order (critical, info, debug ring) yields increasing event numbers**, for every ring
+size and every history of pushes (any priority / length, failing closures, events longer than a ring), resets
+and epoch loads from the empty queue, until the 64-bit event number wraps. A refinement fact about
+`EventsIter` that the next theorem needs; FALSE for the order debug → info → critical
+(`newest_first_not_increasing`). -/
+theorem iter_numbers_increasing (n : Nat) (ops : List Chunk.QOp) :
+    ∃ q, (Chunk.Queue.new n).run ops = some q ∧
+      (q.wrapped = false → (q.iter.map (·.num)).Pairwise (· < ·)) := by
+  obtain ⟨q, h⟩ := Subs.reached_total n ops
+  exact ⟨q, h, fun hw => Subs.iter_numbers_increasing ⟨ops, h⟩ hw⟩
+
+/-- **the running-watermark reader skips nothing that is retained** (property sentence: "every subscribed event
+… is eventually reported" — per report: the specification `Subs.OwedReport`): after ANY history of the queue
+the events a report carries for a subscription with the committed event watermark `seen` and the snapshot
+`next` are exactly the selected events still held by one of the three rings with `seen < number ≤ next`, each
+once, in increasing order. Events evicted from the last ring are gone: lost legitimately. -/
+theorem reader_skips_nothing_retained (n : Nat) (ops : List Chunk.QOp) (sel : Chunk.QEv → Bool) (seen next : Nat) :
+    ∃ q, (Chunk.Queue.new n).run ops = some q ∧
+      (q.wrapped = false →
+        OwedReport sel seen next (q.crit ++ q.info ++ q.debug) (readEvents sel next seen q.iter)) := by
+  obtain ⟨q, h⟩ := Subs.reached_total n ops
+  exact ⟨q, h, fun hw => Subs.reader_skips_nothing_retained ⟨ops, h⟩ hw sel seen next⟩
+
+/-- **a subscribed event that is still retained is IN the next report** — `subscribed_event_in_next_report`
+(the range, from the table's history) composed with the reader over the rings: an event pushed with number `e`
+that the live subscription `x` has not seen, selected by its paths and still held by a ring of the queue `q` when
+the report that begins at step `j` is built, is carried by that report; the report's events are in increasing
+order. -/
+theorem retained_subscribed_event_in_next_report {hz n : Nat} {sched : Nat → Op} {evq : Nat → EvQ}
+    (hw : ∀ k, (stateAt hz n sched k).changed.nextId + 1 < U64) (hm : EvMono evq) (ht : EvTied sched evq)
+    {k j e : Nat} {x : Sub} (hx : x ∈ (stateAt hz n sched k).live) (hp : Pushed evq k e)
+    (hlt : x.seenEv < e) (hkj : k ≤ j) (hnr : NoRestart sched k j)
+    (hnk : ∀ t, k ≤ t → t < j → sched t ≠ .fin x.id .keep ∧ sched t ≠ .fin x.id .unsent)
+    {c : Ctx} (hb : BeginsAt hz n sched j c) (hid : c.sub.id = x.id)
+    {rn : Nat} {q : Chunk.Queue} (hq : Subs.Reached rn q) (hqw : q.wrapped = false)
+    (sel : Chunk.QEv → Bool) {ev : Chunk.QEv} (hret : ev ∈ q.crit ++ q.info ++ q.debug) (hnum : ev.num = e)
+    (hsel : sel ev = true) :
+    e ∈ c.reportEvents sel q ∧ (c.reportEvents sel q).Pairwise (· < ·) := by
+  have hr := (subscribed_event_in_next_report hw hm ht hx hp hlt hkj hnr hnk hb hid).1
+  simp only [Ctx.eventInRange, Bool.and_eq_true, decide_eq_true_eq] at hr
+  have ho := Subs.report_carries_owed_events hq hqw c sel
+  exact ⟨(ho.2 e).mpr ⟨ev, hret, hnum, hsel, hr.1, hr.2⟩, ho.1⟩
+
+/-- the ring queue of `evSched`: the two events pushed between step 1 and step 2 (27 bytes each, 256-byte rings) -/
+def evRing : Chunk.Queue := ((Chunk.Queue.new 256).run [.push 1 27 none, .push 1 27 none]).getD (Chunk.Queue.new 256)
+
+/-- non-vacuity of `retained_subscribed_event_in_next_report` on `evSched`: event 2 is retained and selected; the
+report that begins at step 2 carries `[1, 2]` -/
+example : Subs.Reached 256 evRing ∧ evRing.wrapped = false ∧
+    (∃ ev ∈ evRing.crit ++ evRing.info ++ evRing.debug, ev.num = 2) ∧
+    (∃ c, BeginsAt 1000000 1 evSched 2 c ∧ c.sub.id = 1 ∧ c.reportEvents (fun _ => true) evRing = [1, 2]) :=
+  ⟨⟨[.push 1 27 none, .push 1 27 none], by decide⟩, by decide, ⟨⟨2, 1, 27⟩, by decide, rfl⟩,
+    ⟨{ sub := sub1', nextAttr := 0, nextEv := 2, nextReportedAt := 5000000, nextRetryAt := 0, nextFail := 0 },
+      ⟨5000000, 2, rfl, by decide, by decide⟩, rfl, by decide⟩⟩
+
+/-- **what the seeded change "iterate debug → info → critical" breaks**: after the burst of 12 info events into
+256-byte rings (3 of them promoted to the info ring) that order is not increasing, the reader delivers 4..12 and
+skips the retained events 1, 2, 3 — `OwedReport` fails; with the code's order the report is `[1, …, 12]`. -/
+theorem newest_first_loses_retained_events :
+    ∃ (n : Nat) (q : Chunk.Queue), Subs.Reached n q ∧ q.wrapped = false ∧
+      readEvents (fun _ => true) 12 0 (iterNewestFirst q) = [4, 5, 6, 7, 8, 9, 10, 11, 12] ∧
+      readEvents (fun _ => true) 12 0 q.iter = [1, 2, 3, 4, 5, 6, 7, 8, 9, 10, 11, 12] ∧
+      ¬ OwedReport (fun _ => true) 0 12 (q.crit ++ q.info ++ q.debug)
+          (readEvents (fun _ => true) 12 0 (iterNewestFirst q)) :=
+  Subs.newest_first_loses_retained_events
+
+/-- the ring model numbers its events as the numbering model `EvQ` of the event theorems above does -/
+theorem rings_number_like_evq (q : Chunk.Queue) (hq : Chunk.Queue.QInv q) (hn : q.next ≤ Chunk.Queue.u64Max)
+    (prio len : Nat) (abort : Option Nat) :
+    Subs.evqOf (q.push prio len abort).1 = (Subs.evqOf q).push.2 ∧
+    ∀ num, (q.push prio len abort).2 = .ok num → num = (Subs.evqOf q).push.1 :=
+  Subs.rings_number_like_evq q hq hn prio len abort
+
+/-! ### Totalisations of the model: the `reporting` slot assertion and the `u32` subscription ids -/
+
+/-- **`debug_assert!(self.reporting.is_none())` (`SubscriptionsInner::report`) cannot fire** when the
+reporter is one sequential task (`SeqReporter`: it calls `report` again only after the context of its
+previous report was dropped): at every `report` call the slot is empty. The model overwrites the slot
+(it is total), so histories that violate `SeqReporter` are histories in which a debug build panics; the
+clause `Fair.seq` of the older theorems is this conclusion. Invariants behind it, for **every** history:
+the slot is occupied only while the context of that report is alive (`repCtx_stateAt`), and the end of
+that context empties it (`fin_clears_reporting`). -/
+theorem report_assert_cannot_fire {hz n : Nat} {sched : Nat → Op}
+    (hw : ∀ k, (stateAt hz n sched k).changed.nextId + 1 < U64) (hseq : SeqReporter hz n sched)
+    (j now ev : Nat) (hs : sched j = .report now ev) : (stateAt hz n sched j).reporting = none :=
+  reporting_none_at_report hw hseq j now ev hs
+
+example : SeqReporter 1000000 1 fairSched := by
+  intro j now ev hs j' now' ev' id hlt hs' _
+  have h3 : ∀ t now ev, fairSched t = .report now ev → t = 3 := by
+    intro t now ev h
+    unfold fairSched at h
+    split at h <;> first | rfl | cases h
+  have hj := h3 j now ev hs
+  have hj' := h3 j' now' ev' hs'
+  omega
+
+/-- **subscription ids are `u32`** (`self.next_subscription_id += 1`): the model computes in `Nat`; the
+`u32` code (wrapping in a release build, a panic in a debug build) computes the same as long as the
+counter has not reached `2^32 - 1` -/
+theorem add_u32_agrees (s : State) (now fab peer mn mx ev : Nat) (h : s.nextSubId + 1 < U32) :
+    s.addU32 now fab peer mn mx ev = s.add now fab peer mn mx ev := by
+  unfold State.addU32 State.add
+  rw [Nat.mod_eq_of_lt h]
+
+/-- fewer than `2^32 - 1` subscription ids are assigned in one history (an **assumption** of every
+whole-history theorem of this file: beyond it the ids of the `u32` code repeat and `UID` is lost) -/
+def NoSubIdWrap (hz n : Nat) (sched : Nat → Op) : Prop :=
+  ∀ k, (stateAt hz n sched k).nextSubId + 1 < U32
+
+/-- … and under that assumption the ids of the live subscriptions are distinct `u32` values -/
+theorem sub_ids_unique_u32 {hz n : Nat} {sched : Nat → Op}
+    (hw : ∀ k, (stateAt hz n sched k).changed.nextId + 1 < U64) (hs : NoSubIdWrap hz n sched) (k : Nat) :
+    ((stateAt hz n sched k).live.map (·.id)).Nodup ∧ ∀ x ∈ (stateAt hz n sched k).live, x.id < U32 := by
+  obtain ⟨_, _, hu⟩ := inv_stateAt hz n sched hw k
+  exact ⟨hu.nodup, fun x hx => by have := hu.below x hx; have := hs k; omega⟩
+
+/-- the `u32` arithmetic at its edge: the id after `2^32 - 1` is `0` again (why `NoSubIdWrap` is needed) -/
+example : ((({ State.new 1000000 2 with nextSubId := U32 - 1 } : State).addU32 0 1 1 1 60 0).1).nextSubId = 0 := by
+  decide
 
 /-! ### Why `Idle` is a hypothesis: a reporter pass need not end -/
 
